@@ -8,7 +8,7 @@
 // and the patterns are covered by a constant loop inside the same cbmc query (-DPATSET): 0 = every
 // subset of the 7-leaf bit-field struct; 1 = none, all, each leaf alone, each leaf missing, two
 // alternating patterns and every subset of the four bit-field leaves; 2 = the first six kinds only;
-// 3 = none, all, each leaf missing, alternating.
+// 3 = none, all, each leaf missing, alternating; 4 = none, all, alternating.
 // For the union every choice of initialised member (or none) is combined with every pattern.
 // Decided:  static image == reference image (absent => zero, present => value truncated into the
 //           member's bytes / bits at the psABI position), no relocation is produced;
@@ -174,6 +174,9 @@ static unsigned pattern(int j) {
 #elif PATSET == 2      // basic set only
 #define NPAT NBASIC
 static unsigned pattern(int j) { return basic_pattern(j); }
+#elif PATSET == 4      // none, all, two alternating patterns
+#define NPAT 4
+static unsigned pattern(int j) { return j < 2 ? basic_pattern(j) : j == 2 ? 0x5555u : 0xAAAAu; }
 #else                  // none, all, each leaf missing, two alternating patterns
 #define NPAT (4 + MAXLEAF)
 static unsigned pattern(int j) {
